@@ -19,6 +19,7 @@ import (
 	"github.com/database64128/shadowsocks-go"
 	"github.com/database64128/shadowsocks-go/conn"
 	"github.com/database64128/shadowsocks-go/direct"
+	"github.com/database64128/shadowsocks-go/router"
 	"github.com/database64128/shadowsocks-go/service"
 	"github.com/database64128/shadowsocks-go/ss2022"
 	"github.com/database64128/shadowsocks-go/stats"
@@ -83,8 +84,35 @@ type Env struct {
 	port6    uint16 // source port of a client that moved to ::1
 	Tunnel   netip.AddrPort
 	Upstream netip.AddrPort // address of the harness upstream proxy (outgoing clients other than direct)
+	// OpenSessions is the number of outgoing client sessions the relays have opened and not closed.
+	OpenSessions int
 	// Collector is the real statistics collector the UDP relays record into.
 	Collector stats.Collector
+}
+
+// countingClient counts the sessions opened through a relay's outgoing client and not yet closed.
+type countingClient struct {
+	zerocopy.UDPClient
+	e *Env
+}
+
+func (c *countingClient) NewSession(ctx context.Context) (zerocopy.UDPClientSessionInfo, zerocopy.UDPClientSession, error) {
+	info, sess, err := c.UDPClient.NewSession(ctx)
+	if err == nil {
+		c.e.OpenSessions++
+		inner, closed := sess.Close, false
+		sess.Close = func() error {
+			if !closed {
+				closed = true
+				c.e.OpenSessions--
+			}
+			if inner == nil {
+				return nil
+			}
+			return inner()
+		}
+	}
+	return info, sess, err
 }
 
 // freePort returns a port at or after base on which a socket can be bound at host right now.  Wildcard
@@ -182,6 +210,22 @@ func New(sp Spec) (*Env, error) {
 			r.VerifSetCollector(e.Collector)
 		case *service.UDPSessionRelay:
 			r.VerifSetCollector(e.Collector)
+		}
+	}
+	// every client session a relay opens is counted, and so is its Close: a session the relay forgets to close
+	// keeps whatever the client protocol tied to it (the SOCKS5 client: a TCP control connection and a goroutine)
+	seen := map[*router.Router]bool{}
+	for _, s := range e.Services {
+		var rt *router.Router
+		switch r := s.(type) {
+		case *service.UDPNATRelay:
+			rt = r.VerifRouter()
+		case *service.UDPSessionRelay:
+			rt = r.VerifRouter()
+		}
+		if rt != nil && !seen[rt] {
+			seen[rt] = true
+			rt.VerifWrapUDPClients(func(c zerocopy.UDPClient) zerocopy.UDPClient { return &countingClient{c, e} })
 		}
 	}
 	// a queued packet returned to its pool may be recycled at once by another goroutine: model that by
